@@ -30,7 +30,7 @@ long __real_sysconf(int);
 
 SimConfig::SimConfig()
   : seed(1), policy(POL_UNIFORM), pct_depth(2), pct_len(200), sticky_permille(850), quantum(3),
-    spurious_budget(0), spurious_permille(0), starve_victim(-1), starve_from(0), starve_len(0),
+    spurious_budget(0), spurious_permille(0), starve_victim(-1), starve_from(0), starve_len(0), preempt_budget(0), preempt_gap_log2(10),
     nprocs(4), max_steps(1000000), stall_seconds(120), use_replay(false)
 {}
 
@@ -41,10 +41,11 @@ SimConfig::SimConfig()
 // pthread_mutex_lock/unlock/create/join calls made on the program's behalf.
 extern "C" void __tsan_ignore_thread_begin() __attribute__((weak));
 extern "C" void __tsan_ignore_thread_end() __attribute__((weak));
+static __thread int tl_in_runtime;   // >0 while this thread executes simulator code (its own allocations are not preemption points)
 struct Ign
 {
-  Ign() { if (__tsan_ignore_thread_begin) __tsan_ignore_thread_begin(); }
-  ~Ign() { if (__tsan_ignore_thread_end) __tsan_ignore_thread_end(); }
+  Ign() { ++tl_in_runtime; if (__tsan_ignore_thread_begin) __tsan_ignore_thread_begin(); }
+  ~Ign() { if (__tsan_ignore_thread_end) __tsan_ignore_thread_end(); --tl_in_runtime; }
 };
 
 namespace {
@@ -100,6 +101,9 @@ struct Sched
   long pct_low;
   int rot_left;
   bool dying;
+  Prng preempt_rng;
+  int preempt_left;
+  long next_preempt_at;
 };
 
 void reschedule_exit(SimThread *t);
@@ -374,6 +378,9 @@ void sim_sched_begin(const SimConfig &cfg, sim_fatal_cb cb)
   G.cfg = cfg; G.rng.reseed(cfg.seed ^ 0x5d5d5d5d12345ULL); G.fatal_cb = cb;
   G.spurious_left = cfg.spurious_budget; G.dying = false;
   G.pct_points.clear(); G.pct_low = 0; G.rot_left = 0;
+  G.preempt_rng.reseed(cfg.seed ^ 0x7072656d7074ULL);
+  G.preempt_left = cfg.preempt_budget;
+  G.next_preempt_at = 1 + (long) (G.preempt_rng.next() & ((1UL << G.preempt_rng.below(cfg.preempt_gap_log2 + 1)) - 1 | 1));
   if (cfg.policy == POL_PCT && !cfg.use_replay)
     for (int i = 0; i < cfg.pct_depth; ++i)
       G.pct_points.push_back(1 + (long) G.rng.below(cfg.pct_len > 0 ? cfg.pct_len : 1));
@@ -606,6 +613,10 @@ int __wrap_pthread_mutex_unlock(pthread_mutex_t *m)
   int r = __real_pthread_mutex_unlock(m);
   G.mutex_owner[m] = -1;
   ev("unlock", mid);
+  // A second scheduling point *after* the release: the window between an unlock and the next
+  // statement of the same thread (e.g. a flag that is set just after the critical section instead
+  // of inside it) is otherwise unreachable, because the thread would run on to its next pthread call.
+  reschedule();
   return r;
 }
 
@@ -678,6 +689,27 @@ int __wrap_pthread_cond_broadcast(pthread_cond_t *c)
   while (!w.empty()) wake_waiter(c, 0);
   ev("broadcast", cid, n);
   return 0;
+}
+
+// operator new(size_t) called by the program (not by the simulator itself): an optional scheduling point *inside*
+// task bodies.  Positions are a pure function of the run seed (their own PRNG stream, so a replayed decision
+// list meets the same preemption points).
+void *__real__Znwm(size_t);
+void *__wrap__Znwm(size_t n)
+{
+  if (G.active && !G.dying && !tl_in_runtime && tl_self && G.preempt_left > 0)
+    {
+      Ign ign_;
+      if (++G.st.allocations_seen >= G.next_preempt_at)
+	{
+	  --G.preempt_left;
+	  ++G.st.preemptions;
+	  G.next_preempt_at = G.st.allocations_seen + 1 + (long) (G.preempt_rng.next() & ((1UL << G.preempt_rng.below(G.cfg.preempt_gap_log2 + 1)) - 1));
+	  ev("preempt-at-new", G.st.allocations_seen);
+	  reschedule();
+	}
+    }
+  return __real__Znwm(n);
 }
 
 long __wrap_sysconf(int name)
